@@ -52,7 +52,9 @@ def generate_centroids(
         the rank of the input by 1. NaNs will be ignored in the calculation.
     """
     if anchor_ind is not None:
-        centroids = points[..., anchor_ind, :]
+        # clone: the indexing result is a view of `points`; the fallback below must not
+        # write bounding-box midpoints into the caller's keypoints.
+        centroids = points[..., anchor_ind, :].clone()
     else:
         centroids = torch.full_like(points[..., 0, :], torch.nan)
 
